@@ -1169,11 +1169,19 @@ def run(ctx: Any, prog: Program) -> None:
         for n in ast.walk(fnr):
             if isinstance(n, ast.Call) and isinstance(n.func, ast.Attribute) and n.func.attr in ('split', 'partition') and 'value' in U(n.func.value):
                 # the split that sits under the branch mentioning `near`
+                ch = n
                 p = vm.parents.get(n)
                 while p is not None and p is not fnr:
                     if isinstance(p, ast.If) and near in U(p.test):
                         best = n
-                    p = vm.parents.get(p)
+                    # ... or behind a guard clause on it: `if child.name != 'point': continue` earlier in the same block
+                    for fld in ('body', 'orelse'):
+                        blk = getattr(p, fld, None)
+                        if isinstance(blk, list) and ch in blk:
+                            for prev in blk[:blk.index(ch)]:
+                                if isinstance(prev, ast.If) and near in U(prev.test) and prev.body and isinstance(prev.body[-1], (ast.Continue, ast.Return)) and not prev.orelse:
+                                    best = n
+                    ch, p = p, vm.parents.get(p)
         return best
     for wq, prefix, rq, near, last_is_text in (('EntityFixup.export', 'replace', 'Entity.parse', "'replace'", True),
                                                 ('Side.export', 'point', 'Side._parse_strata_points', "'point'", False)):
